@@ -17,6 +17,7 @@ META = {
 
 
 def run(s):
+    K.hostile_callers(s)
     K.suite_workload(s)
     K.fixtures_workload(s)
     K.collision_cases(s, 'item')
